@@ -222,8 +222,12 @@ func c01OneBatch(c *core.Ctx) {
 		// the epilogue is registered first, so (LIFO) it runs after the mutex is released
 		first := false
 		if len(u.Body.List) > 0 {
-			if ds, isD := u.Body.List[0].(*ast.DeferStmt); isD && c.P.LitUnit(litOf(ds.Call.Fun)) == d {
-				first = true
+			if ds, isD := u.Body.List[0].(*ast.DeferStmt); isD {
+				if c.P.LitUnit(litOf(ds.Call.Fun)) == d {
+					first = true
+				} else if f, _ := core.ObjOf(u.Info(), ds.Call.Fun).(*types.Func); f != nil && c.P.UnitOf(f) == d {
+					first = true // the epilogue literal turned into a named method: `defer w.sendDone()`
+				}
 			}
 		}
 		c.Check(R, key+"/epilogue-registered-first", u.Pos(), first, "the epilogue defer is the first statement (runs last, after the write lock is released)")
